@@ -5,6 +5,12 @@ From SW Require Import model.FilerNS proof.FilerNSBase model.Chunks model.HardLi
 Import ListNotations.
 Local Open Scope list_scope.
 
+Lemma filter_all_id : forall {A} (f : A -> bool) (l : list A), (forall x, In x l -> f x = true) -> filter f l = l.
+Proof.
+  induction l as [|x l IH]; simpl; intro H; [reflexivity|].
+  rewrite (H x (or_introl eq_refl)). f_equal. apply IH. intros. apply H. now right.
+Qed.
+
 (* ================= association lists ================= *)
 Section AMapFacts.
   Context {K V : Type} (eqb : K -> K -> bool).
@@ -119,7 +125,7 @@ Proof.
   inversion Hnd; subst. simpl. destruct (peqb_spec q p).
   - subst q. simpl. rewrite cn_cons.
     assert (Hno : adel HardLink.path_eqb m p = m).
-    { unfold adel. apply forallb_filter_id. apply forallb_forall. intros [q' e'] Hin. simpl.
+    { unfold adel. apply filter_all_id. intros [q' e'] Hin. simpl.
       destruct (peqb_spec q' p); [|reflexivity]. subst. exfalso. apply H1. now apply (in_map fst) in Hin. }
     rewrite Hno. reflexivity.
   - simpl. rewrite !cn_cons. rewrite (IH p X H2). lia.
